@@ -3,6 +3,7 @@ C17 (streaming hashes), part of C18.
 
     /venv/bin/python h_misc.py <repo> <tier> <seed> <prop>
 """
+import gzip
 import hashlib
 import io
 import itertools
@@ -466,6 +467,49 @@ def c15(rng, tier, repo):
                 if norm(got_x) != want_x:
                     viol.append({'what': 'C15 crossing allowed: Manifests at levels %s, boundary %d: got %r, expected %r' % (
                         [i for i, m_ in enumerate(mask) if m_], bidx, got_x, want_x), 'key': 'xdev-allowed', 'props': ['C15']})
+    # the start directory reached through a symbolic link: the walk goes up through `start/..` physically, so the answer is the
+    # outermost Manifest above the link's *target*, whatever lies above the link itself; several spellings of the start path;
+    # a plain and a compressed Manifest side by side (the plain one is the answer)
+    with C.Scratch() as base:
+        tree = os.path.join(base, 'tree')
+        os.makedirs(os.path.join(tree, 'a', 'b'))
+        os.makedirs(os.path.join(base, 'elsewhere', 'x'))
+        C.write_manifest(os.path.join(base, 'Manifest'), ['IGNORE tree', 'IGNORE elsewhere'])
+        C.write_manifest(os.path.join(tree, 'Manifest'), ['DATA x 1'])
+        C.write_manifest(os.path.join(tree, 'a', 'Manifest'), ['DATA y 1'])
+        C.write_manifest(os.path.join(base, 'elsewhere', 'Manifest'), ['DATA z 1'])
+        os.symlink(os.path.join(tree, 'a', 'b'), os.path.join(base, 'elsewhere', 'x', 'lnk'))
+        want = os.path.realpath(os.path.join(tree, 'Manifest'))
+        old = os.getcwd()
+        try:
+            os.chdir(os.path.join(base, 'elsewhere', 'x'))
+            for spelled in (os.path.join(base, 'elsewhere', 'x', 'lnk'), os.path.join(base, 'elsewhere', 'x', 'lnk') + '/', 'lnk', './lnk/',
+                            os.path.join(tree, 'a', 'b'), os.path.join(tree, 'a', 'b') + '/', os.path.join(tree, 'a', '.', 'b')):
+                for allow_c in (False, True):
+                    try:
+                        got = find_top_level_manifest(spelled, allow_compressed=allow_c)
+                    except BaseException as e:
+                        got = 'EXC:' + type(e).__name__
+                    n += 1
+                    ok = isinstance(got, str) and not got.startswith('EXC') and os.path.exists(got) and os.path.realpath(got) == want
+                    if not ok:
+                        viol.append({'what': 'C15 start %r (allow_compressed=%s): got %r, which is not the file %r' % (spelled, allow_c, got, want),
+                                     'key': 'toplevel:via-symlink' if 'lnk' in spelled else 'toplevel:spelling', 'props': ['C15']})
+        finally:
+            os.chdir(old)
+        # plain and compressed side by side on every level
+        for d in (tree, os.path.join(tree, 'a')):
+            with gzip.open(os.path.join(d, 'Manifest.gz'), 'wt') as f:
+                f.write('IGNORE a\nIGNORE b\n')
+        for start in (os.path.join(tree, 'a', 'b'), os.path.join(tree, 'a'), tree):
+            try:
+                got = find_top_level_manifest(start, allow_compressed=True)
+            except BaseException as e:
+                got = 'EXC:' + type(e).__name__
+            n += 1
+            if not (isinstance(got, str) and os.path.realpath(got) == want):
+                viol.append({'what': 'C15 Manifest and Manifest.gz side by side, start %r: got %r, expected the plain %r' % (
+                    os.path.relpath(start, base), got, want), 'key': 'toplevel:plain-and-compressed', 'props': ['C15']})
     return viol, n, distinct, samples
 
 
